@@ -774,7 +774,6 @@ static struct reb_particle reb_particle_from_fmt_errV(struct reb_simulation* r, 
     if (!isnan(T)) Norb++;
     
     int Nnonpal = 0;
-    if (primary_given) Nnonpal++;
     if (!isnan(e)) Nnonpal++;
     if (!isnan(inc)) Nnonpal++;
     if (!isnan(Omega)) Nnonpal++;
